@@ -1318,8 +1318,8 @@ class _Desugar(ast.NodeTransformer):
             else:
                 out.extend(rep)
                 self.count += 1
-        out = self._first_match(self._walrus(self._unroll(
-            self._accumulate(self._devirtualise(out)))))
+        out = self._search_then_use(self._first_match(self._walrus(
+            self._unroll(self._accumulate(self._devirtualise(out))))))
         out = self._conditional_assign(self._match_literals(out))
         return self._dict_dispatch(out)
 
@@ -1672,6 +1672,65 @@ class _Desugar(ast.NodeTransformer):
                 chain = [ast.copy_location(ast.If(
                     test=test, body=body, orelse=chain), use)]
             out = out[:i] + between + chain + out[j + 1:]
+            self.count += 1
+        return out
+
+    def _search_then_use(self, stmts):
+        """x = None                               for t in it:
+           for t in it:                               if c:
+               if c: x = t; break          ->             BODY[x := t]
+           if x is not None: BODY(x)                      break
+        when BODY leaves the function (raise / return) and x is used for
+        nothing else in the block: the search loop and what is done with
+        what it found, in one place."""
+        out = list(stmts)
+        i = 0
+        while i + 2 < len(out):
+            a, lp, use = out[i], out[i + 1], out[i + 2]
+            i += 1
+            if not (isinstance(a, ast.Assign) and len(a.targets) == 1 and
+                    isinstance(a.targets[0], ast.Name) and
+                    isinstance(a.value, ast.Constant) and
+                    a.value.value is None and isinstance(lp, ast.For) and
+                    not lp.orelse and isinstance(lp.target, ast.Name) and
+                    len(lp.body) == 1 and isinstance(lp.body[0], ast.If) and
+                    not lp.body[0].orelse and isinstance(use, ast.If) and
+                    not use.orelse):
+                continue
+            x, t = a.targets[0].id, lp.target.id
+            found = lp.body[0].body
+            if not (len(found) == 2 and isinstance(found[0], ast.Assign) and
+                    len(found[0].targets) == 1 and
+                    isinstance(found[0].targets[0], ast.Name) and
+                    found[0].targets[0].id == x and
+                    isinstance(found[0].value, ast.Name) and
+                    found[0].value.id == t and
+                    isinstance(found[1], ast.Break)):
+                continue
+            tt = use.test
+            is_some = isinstance(tt, ast.Compare) and len(tt.ops) == 1 and \
+                isinstance(tt.ops[0], ast.IsNot) and \
+                isinstance(tt.left, ast.Name) and tt.left.id == x and \
+                isinstance(tt.comparators[0], ast.Constant) and \
+                tt.comparators[0].value is None
+            if not is_some or not use.body or \
+                    not isinstance(use.body[-1], (ast.Raise, ast.Return)):
+                continue
+            later = [n for s2 in out[i + 2:] for n in ast.walk(s2)
+                     if isinstance(n, ast.Name) and n.id == x]
+            if later or any(isinstance(n, ast.Name) and n.id == x and
+                            isinstance(n.ctx, ast.Store)
+                            for b in use.body for n in ast.walk(b)):
+                continue
+            import copy as _c
+            body = [_Subst({x: ast.Name(id=t, ctx=ast.Load())}, {}).visit(
+                _c.deepcopy(b)) for b in use.body]
+            new_if = ast.copy_location(ast.If(
+                test=lp.body[0].test, body=body, orelse=[]), lp.body[0])
+            new_lp = ast.copy_location(ast.For(
+                target=lp.target, iter=lp.iter, body=[new_if], orelse=[],
+                lineno=lp.lineno), lp)
+            out[i - 1:i + 2] = [new_lp]
             self.count += 1
         return out
 
@@ -2691,6 +2750,9 @@ class _Thread(ast.NodeTransformer):
                 continue
             if not isinstance(second, ast.If):
                 continue
+            split = self._split_lead(first, second)
+            if split is not None:
+                out[i] = second = split
             t, neg = second.test, False
             if isinstance(t, ast.UnaryOp) and isinstance(t.op, ast.Not):
                 t, neg = t.operand, True
@@ -2743,6 +2805,65 @@ class _Thread(ast.NodeTransformer):
             self.count += 1
             i = max(i - 1, 0)
         return out
+
+    def _split_lead(self, first, second):
+        """`if r or X: A else: B` (r / not r the variable the previous
+        statement ends on) is `if r: A else: (if X: A else: B)`; dually for
+        `and`: the lead test can then be threaded."""
+        t = second.test
+        if not (isinstance(t, ast.BoolOp) and len(t.values) >= 2):
+            return None
+        lead = t.values[0]
+        name = lead.operand if isinstance(lead, ast.UnaryOp) and \
+            isinstance(lead.op, ast.Not) else lead
+        if not isinstance(name, ast.Name) or \
+                self._leaves(first, name.id) is None:
+            return None
+        loads, _ = self.uses[-1]
+        if loads.get(name.id) != 1:
+            return None
+        rest = t.values[1] if len(t.values) == 2 else ast.BoolOp(
+            op=t.op, values=t.values[1:])
+        size = sum(1 for b in second.body + second.orelse
+                   for _ in ast.walk(b))
+        if size > 120:
+            return None
+        if isinstance(t.op, ast.Or):
+            inner = ast.copy_location(ast.If(
+                test=rest, body=copy.deepcopy(second.body),
+                orelse=copy.deepcopy(second.orelse)), second)
+            return ast.copy_location(ast.If(
+                test=lead, body=second.body, orelse=[inner]), second)
+        inner = ast.copy_location(ast.If(
+            test=rest, body=second.body,
+            orelse=copy.deepcopy(second.orelse)), second)
+        return ast.copy_location(ast.If(
+            test=lead, body=[inner], orelse=second.orelse), second)
+
+    def _never_none(self, fname, depth):
+        """The module-level function fname always returns something that is
+        not None: every path ends with `return <tuple / string / number /
+        call of such a function>`."""
+        defs = getattr(self, 'module_defs', {})
+        fn = defs.get(fname)
+        if fn is None or depth > 3:
+            return False
+        if not _ends_abrupt(fn.body):
+            return False
+        for r in ast.walk(fn):
+            if isinstance(r, ast.Return):
+                v = r.value
+                if isinstance(v, (ast.Tuple, ast.JoinedStr, ast.List,
+                                  ast.Dict)):
+                    continue
+                if isinstance(v, ast.Constant) and v.value is not None:
+                    continue
+                if isinstance(v, ast.Call) and \
+                        isinstance(v.func, ast.Name) and \
+                        self._never_none(v.func.id, depth + 1):
+                    continue
+                return False
+        return True
 
     def _sink(self, out, i, first, second):
         """    if c: r = X                 if c: raise X from e
@@ -2800,7 +2921,10 @@ class _Thread(ast.NodeTransformer):
             fn = v.func
             name = fn.attr if isinstance(fn, ast.Attribute) else \
                 getattr(fn, 'id', '')
-            return name[:1].isupper() and not name.isupper()
+            if name[:1].isupper() and not name.isupper():
+                return True
+            return isinstance(fn, ast.Name) and \
+                self._never_none(fn.id, 0)
         repl = {}
         for lf in leaves:
             v = lf.value
@@ -2942,6 +3066,8 @@ def thread_decisions(trees):
     n = 0
     for t in trees.values():
         th = _Thread()
+        th.module_defs = {st.name: st for st in t.body
+                          if isinstance(st, ast.FunctionDef)}
         th.visit(t)
         if th.count:
             ast.fix_missing_locations(t)
